@@ -14,14 +14,16 @@ LOCK_COMPONENTS = {
 LOCK_RULE = ('one run = one generated scenario (1-6 clients x 1-3 rounds of acquire/hold/release with start phases, hold times, optional '
              'table read while holding, optional release without acquire; plain or chunked/delayed network) executed repeatedly inside the run: '
              'fault-free batch = 3 interleavings; enumeration batch = 1 fault-free pass + one execution per (client, protocol point, '
-             'mode in {reset, fin}) with the disconnect injected exactly there + 3 executions with random timed/multiple disconnects; '
+             'mode in {reset, fin}, capped at 70 per run) with the disconnect injected exactly there + 3 executions with random timed/multiple disconnects; '
              'non-trivial = some acquire reached the server while the lock was held (contention), at least one scheduler reordering and, '
              'in the enumeration batch, at least one disconnect fired; distinct = distinct digest over the event logs of all executions of the run')
 
 LT = ('fault enumeration inside each seeded run: every client protocol point of the generated scenario (before each send, before each close, '
       'at the start and at the end of each blocking receive, i.e. connect/acquire sent/each poll answer/hold/release sent/ack/close) gets a '
-      'disconnect in two modes, followed by seeded search with timed and multiple disconnects; exhaustive only over the points of each '
-      'generated scenario and the interleaving recorded in its fault-free pass, not over scenarios or interleavings')
+      'disconnect in two modes (positions that the server cannot tell from the preceding one are not repeated), followed by seeded search '
+      'with timed and multiple disconnects; exhaustive only over the points of each generated scenario and the interleaving recorded in its '
+      'fault-free pass, not over scenarios or interleavings; at most 70 injected executions per run: a scenario with more positions (about '
+      'half of them, typically 4+ clients) gets a chooser-chosen subset, counted in probe enumerated_positions_skipped_by_cap')
 LN = ('trusted: the simulator kernel (sim/), LockSocket as a model of a blocking TLS socket, the frame decoder of the oracle; '
       'a client process is modelled as a controlled thread whose only contact with the server is its sockets; db.post backend not exercised; '
       'clients are the real comms.acquire/release (a client that sends acquire twice or release while waiting is not generated)')
@@ -29,7 +31,8 @@ LN = ('trusted: the simulator kernel (sim/), LockSocket as a model of a blocking
 
 def lock(name, runs_q, runs_t, chunk=None, **cfg):
     # chunk = runs per forked child.  A run of the enumeration batch is a whole scenario executed ~50-100 times (seconds of
-    # CPU): few runs per child keep a chunk far below the run server's watchdog also on a loaded machine.
+    # CPU): one run per child keeps it far below the run server's watchdog (90 s) also when the machine is heavily oversubscribed
+    # (observed: machine-wide phases of 10-30x slowdown while 6 builders ran their tiers at once; VERIF_CHILD_TIMEOUT raises the watchdog).
     d = dict(name=name, world='worlds.lock', cfg=cfg, runs=dict(quick=runs_q, thorough=runs_t))
     if chunk:
         d['chunk'] = chunk
@@ -47,7 +50,7 @@ PROPS = {
         batches=[
             # the heavy batch first: chunks are queued in batch order and the wall budget cuts the tail; every run of
             # the enumeration batch starts with a fault-free execution, so fault-free behaviour is covered either way
-            lock('disconnect-enumeration', 192, 3200, chunk=2, faults=True),
+            lock('disconnect-enumeration', 192, 3200, chunk=1, faults=True),
             lock('fault-free', 480, 16000, faults=False),
         ],
         wall=dict(quick=75, thorough=900),
